@@ -144,7 +144,119 @@ func conv[T any](items []any) []T {
 
 // mkOption builds a compose.Option from items through the typed public constructor when the
 // items are uniform (and lambda is false), through WithLambdaOption(...any) otherwise.
-func mkOption(items [][2]int, lambda bool) compose.Option {
+// ---- spare capacity of the caller's slices (round 6) ---------------------------------------------
+// WithLambdaOption(vals...), WithCallbacks(hs...) and DesignateNodeWithPath(ps...) are variadic: the Option
+// keeps (or reads) the caller's slice, and a caller may well pass s[:n]... of a longer array. An
+// implementation that appends to such a slice (an "avoid the allocation when there is only one" shortcut)
+// writes into the caller's array: the caller's other slices of that array - options of another call - then
+// carry what this call put there. Every second slice the harness hands to those constructors therefore has
+// two more slots behind its length, filled with marks that nothing may overwrite (checked after the calls
+// of the case: oracle clause caller-options-modified) and that nothing may ever see (a mark that reaches a
+// node is an undecodable value, a mark handler that fires is a misplaced callback, a mark path designates an
+// unknown node).
+type spareMark struct{ tag string }
+
+type spareRec struct {
+	what string
+	n    int
+	vals []any
+	hs   []callbacks.Handler
+	ps   []*compose.NodePath
+	ks   []string
+}
+
+var (
+	spareRegs     []spareRec // the arrays handed out for the case being built (cases run one after the other)
+	spareHandler  = mkHandler(spareHandlerID)
+	sparePath     = compose.NewNodePath("spare-capacity-mark")
+	spareValue    = spareMark{"spare capacity of the caller's slice"}
+	spareSlotsLen = 2
+)
+
+const spareHandlerID = 7
+
+func spareVals(vals []any, key int) []any {
+	if key%2 != 0 {
+		return vals
+	}
+	full := make([]any, len(vals)+spareSlotsLen)
+	copy(full, vals)
+	for i := len(vals); i < len(full); i++ {
+		full[i] = spareValue
+	}
+	spareRegs = append(spareRegs, spareRec{what: "values", n: len(vals), vals: full})
+	return full[:len(vals)]
+}
+
+func spareHs(hs []callbacks.Handler, key int) []callbacks.Handler {
+	if key%2 != 0 {
+		return hs
+	}
+	full := make([]callbacks.Handler, len(hs)+spareSlotsLen)
+	copy(full, hs)
+	for i := len(hs); i < len(full); i++ {
+		full[i] = spareHandler
+	}
+	spareRegs = append(spareRegs, spareRec{what: "handlers", n: len(hs), hs: full})
+	return full[:len(hs)]
+}
+
+func sparePaths(ps []*compose.NodePath, key int) []*compose.NodePath {
+	if key%2 != 0 {
+		return ps
+	}
+	full := make([]*compose.NodePath, len(ps)+spareSlotsLen)
+	copy(full, ps)
+	for i := len(ps); i < len(full); i++ {
+		full[i] = sparePath
+	}
+	spareRegs = append(spareRegs, spareRec{what: "paths", n: len(ps), ps: full})
+	return full[:len(ps)]
+}
+
+// spareKeys: the keys handed to NewNodePath (which keeps the slice; the path handed down into a sub graph is a
+// sub-slice of it and inherits the room behind it)
+func spareKeys(ks []string, key int) []string {
+	if key%2 != 0 {
+		return ks
+	}
+	full := make([]string, len(ks)+spareSlotsLen)
+	copy(full, ks)
+	for i := len(ks); i < len(full); i++ {
+		full[i] = spareValue.tag
+	}
+	spareRegs = append(spareRegs, spareRec{what: "node keys", n: len(ks), ks: full})
+	return full[:len(ks)]
+}
+
+// spareWritten: which of the arrays handed out for this case no longer ends in its marks ("" = none)
+func spareWritten() string {
+	for k, r := range spareRegs {
+		for i := r.n; i < r.n+spareSlotsLen; i++ {
+			ok := true
+			switch r.what {
+			case "values":
+				ok = r.vals[i] == any(spareValue)
+			case "handlers":
+				ok = r.hs[i] == spareHandler
+			case "paths":
+				ok = r.ps[i] == sparePath
+			case "node keys":
+				ok = r.ks[i] == spareValue.tag
+			}
+			if !ok {
+				return fmt.Sprintf("the array behind the %s slice no. %d the caller built its options from was written beyond the slice's length (slot %d of %d)", r.what, k, i, r.n+spareSlotsLen)
+			}
+		}
+	}
+	return ""
+}
+
+func mkOption(items [][2]int, lambda bool) compose.Option { return mkOptionSpare(items, lambda, false) }
+
+// mkOptionSpare: spare = the option belongs to the script of a call (built by the goroutine that owns the case
+// before any call starts): the slice handed to WithLambdaOption may get spare capacity with marks
+func mkOptionSpare(items [][2]int, lambda bool, spare bool) compose.Option {
 	vals := make([]any, len(items))
 	uniform := true
 	for i, it := range items {
@@ -153,8 +265,18 @@ func mkOption(items [][2]int, lambda bool) compose.Option {
 			uniform = false
 		}
 	}
+	lambdaVals := func() []any {
+		if !spare {
+			return vals
+		}
+		key := len(items)
+		for _, it := range items {
+			key += it[1]
+		}
+		return spareVals(vals, key)
+	}
 	if len(items) == 0 || !uniform || lambda {
-		return compose.WithLambdaOption(vals...)
+		return compose.WithLambdaOption(lambdaVals()...)
 	}
 	switch items[0][0] {
 	case tyModel:
@@ -174,7 +296,7 @@ func mkOption(items [][2]int, lambda bool) compose.Option {
 	case tyTransformer:
 		return compose.WithDocumentTransformerOption(conv[document.TransformerOption](vals)...)
 	}
-	return compose.WithLambdaOption(vals...)
+	return compose.WithLambdaOption(lambdaVals()...)
 }
 
 // ---------------------------------------------------------------- recorder
@@ -182,12 +304,12 @@ func mkOption(items [][2]int, lambda bool) compose.Option {
 type recKey struct{}
 
 type recorder struct {
-	mu    sync.Mutex
+	mu     sync.Mutex
 	delivs map[string][][]int // node path -> payloads received, per execution
-	loop  map[string]int     // Back relay path -> how often the loop condition was asked
-	ran   map[string]int   // node path -> number of executions
-	fired map[string][]int // RunInfo.Name (node path) -> handler ids whose OnStart fired
-	seed  uint64
+	loop   map[string]int     // Back relay path -> how often the loop condition was asked
+	ran    map[string]int     // node path -> number of executions
+	fired  map[string][]int   // RunInfo.Name (node path) -> handler ids whose OnStart fired
+	seed   uint64
 }
 
 func newRecorder(seed uint64) *recorder {
